@@ -186,6 +186,16 @@ def _impl_history(case):
         before = [fitutil.info_state(i) for i in infos]
         res['list'] = _run_ops(case, infos, d, 'list')
         res['list_unchanged'] = [fitutil.info_state(i) for i in infos] == before
+        if len(case['sources']) >= 2:
+            # a list whose members come from two separate reads of the file (equal metadata, distinct objects)
+            ra, rb = list(FitInfoFile(p, 'r')), list(FitInfoFile(p, 'r'))
+            mixed = ra[:1] + rb[1:]
+            before2 = [fitutil.info_state(i) for i in mixed]
+            try:
+                res['list2'] = _run_ops(case, mixed, d, 'list2')
+                res['list2_unchanged'] = [fitutil.info_state(i) for i in mixed] == before2
+            except ValueError as e:
+                res['list2_refused'] = str(e)[:120]
         if len(case['sources']) == 1:
             infos = c09._infos(case, d)
             res['object'] = _run_ops(case, infos[0], d, 'obj')
@@ -375,7 +385,9 @@ def judge(case, im, mo):
         if n is not None and n != want:
             disagree.append('call %d (%s %r) on the file lists %r fits, model %r' % (k, fn, sel, n, want))
         k += 1
-    for form in ('list', 'object'):
+    if 'list2_refused' in im:
+        fail.append('forms: a list of results read back from the same file in two reads is refused: %s' % im['list2_refused'])
+    for form in ('list', 'object', 'list2'):
         if form in im:
             for j, (a, b) in enumerate(zip(im['file'], im[form])):
                 if a != b:
